@@ -326,7 +326,10 @@ fn expand_enum(
     }
 
     let (bounds, match_arms) = e.variants.iter().try_fold(
-        (Vec::new(), TokenStream::new()),
+        (
+            Vec::from_iter(container_attrs.common.bounds.0.clone()),
+            TokenStream::new(),
+        ),
         |(mut bounds, mut arms), variant| {
             let mut attrs = ContainerAttributes::parse_attrs(&variant.attrs, attr_name)?
                 .map(Spanning::into_inner)
@@ -581,6 +584,7 @@ impl Expansion<'_> {
                 shared_attr_is_wrapping
             }
             None => {
+                bounds.extend(self.attrs.common.bounds.0.clone());
                 if shared_attr_is_wrapping || !has_shared_attr {
                     bounds.extend(self.fields.iter().next().and_then(|f| {
                         let ty = &f.ty;
